@@ -149,11 +149,19 @@ func smpValues(rng *rand.Rand, n int, positive bool) []float64 {
 			xs[n-1] = 0
 		}
 	}
-	if rng.Intn(12) == 0 { // large whole numbers (exact in float64, huge sums of squares)
+	if rng.Intn(12) == 0 || (n > 80 && rng.Intn(3) == 0) { // large whole numbers (byte counts, nanoseconds: exact in float64, huge sums of squares)
 		step := float64([]int{3000, 300000, 1 << 20, 7}[rng.Intn(4)])
 		base := float64([]int{0, 0, 1000000000, -5000}[rng.Intn(4)])
+		top := int64(1) << uint([]int{20, 26, 31, 40}[rng.Intn(4)])
+		spreadOut := rng.Intn(2) == 0
 		for i := range xs {
 			xs[i] = base + step*float64(rng.Intn(4*n+1))
+			if spreadOut { // anywhere between 0 and a power of two, or at its quarters
+				xs[i] = float64(rng.Int63n(top + 1))
+				if rng.Intn(3) == 0 {
+					xs[i] = float64(top / 4 * int64(rng.Intn(5)))
+				}
+			}
 			if positive {
 				xs[i] = math.Abs(xs[i]) + 1
 			}
